@@ -18,7 +18,9 @@ from vf import monitors, refmodel, refmsm, stdgeom
 
 LEVEL = "exploration"
 RULE = (
-    "cases: (L) identity x count strategy {zero, one, max-that-fits, small, random}: payload of exactly the pinned "
+    "cases: (P) 131 identities with PINNED field-level layouts (names, order, widths, number representation, "
+    "resolution; vf.stdlayout): message built from the pinned layout -> identical attributes and values; "
+    "(L) identity x count strategy {zero, one, max-that-fits, small, random}: payload of exactly the pinned "
     "standard length with random content -> parse succeeds, bit (len-1) is significant, every pad bit is not, "
     "ceil(len/8) bytes accepted and one byte less rejected; (I) every defined identity: definition walk + populated "
     "reference message parses; (S) sibling families (RTK basic/extended GPS+GLONASS, network RTK, SSR orbit|clock|"
@@ -34,7 +36,7 @@ ASSUMPTIONS = [
     "do not matter",
 ]
 GATES = ["length_checked", "integrity_checked", "sibling_checked", "family:ssr-igs", "family:gps-rtk",
-         "family:msm-level", "last_bit_significant", "pad_bits_insignificant"]
+         "family:msm-level", "last_bit_significant", "pad_bits_insignificant", "pinned_checked"]
 
 _IDX = re.compile(r"^(.*?)((?:_\d{2,3})+)$")
 
@@ -120,6 +122,29 @@ def length_case(ctx, identity, cstrat, seedtag):
         ctx.case(f"L|{identity}|{val:x}", bool(chosen) and any(
             (isinstance(v, int) and v > 0) or (isinstance(v, (list, tuple)) and any(v)) for _, v in chosen) or not chosen)
         return
+
+
+# ------------------------------------------------------------------------------ (P) pinned field layouts
+def pinned_case(ctx, identity, vs, cs, ms, seedtag, mech="pinned-layout-mismatch"):
+    """Message built from the PINNED field-level layout (names, order, widths, representation, resolution):
+    the real parser must produce exactly those attributes and values."""
+    from vf import stdlayout
+
+    rng = random.Random(seedtag)
+    params = {"kind": "pinned", "identity": identity, "vstrat": vs, "cstrat": cs, "mstrat": ms, "seedtag": seedtag}
+    enc = refmodel.build(identity, rng, vs, cs, ms, tabs=(stdlayout.LAYOUT, stdlayout.F))
+    try:
+        msg = parse(enc.payload)
+    except Exception as e:
+        ctx.violation(mech, f"{identity}: a message laid out as the standard specifies ({vs},{cs},{ms}) is rejected: "
+                      f"{type(e).__name__}: {str(e)[:160]}", params)
+        return
+    diff = refmodel.compare_pinned(enc, msg, stdlayout.F)
+    ctx.hit("pinned_checked")
+    if diff:
+        ctx.violation(mech, f"{identity} ({vs},{cs},{ms}): {diff}", params)
+        return
+    ctx.case(b"P|" + enc.payload, len(enc.expected) > 1)
 
 
 # ------------------------------------------------------------------------------ (I) integrity
@@ -575,6 +600,19 @@ def run(ctx):
     for k, identity in enumerate(ids):
         if ctx.mine(k + 5):
             integrity_case(ctx, identity, T())
+    from vf import stdlayout
+
+    pins = [i for i in sorted(stdlayout.LAYOUT) if i in defs]
+    ctx.note("pinned_field_layouts", len(pins))
+    for k, identity in enumerate(pins):
+        if not ctx.mine(k + 3):
+            continue
+        msm = refmodel.is_msm_identity(identity)
+        for j in range(24 if ctx.quick else 600):
+            vs = refmodel.VSTRATS[j % len(refmodel.VSTRATS)]
+            cs = ("zero", "one", "small", "max", "random")[j % 5]
+            ms = refmodel.MSTRATS[j % len(refmodel.MSTRATS)] if msm else "random"
+            pinned_case(ctx, identity, vs, cs, ms, T())
     nfam = len(FAMILIES)
     for j in range(ctx.n(nfam * 100, nfam * 3000)):
         sibling_case(ctx, (j * ctx.nworkers + ctx.worker) % nfam, T())
@@ -593,7 +631,9 @@ def finalize(tier, counters, notes):
 def replay(ctx, p):
     install_offset_probe()
     k = p["kind"]
-    if k == "length":
+    if k == "pinned":
+        pinned_case(ctx, p["identity"], p["vstrat"], p["cstrat"], p["mstrat"], p["seedtag"])
+    elif k == "length":
         length_case(ctx, p["identity"], p["cstrat"], p["seedtag"])
     elif k == "integrity":
         integrity_case(ctx, p["identity"], p["seedtag"])
